@@ -62,6 +62,27 @@ def source_reads(ctx, chk, rule):
                             "the byte source is read with %s in %s: a short read or end-of-stream would yield a packet "
                             "instead of an error / boundaries would depend on chunking" % (n.rsplit("::", 1)[-1], b.id),
                             "read_exact in read_packet", t.get("sp"))
+    # ... and nothing stands between read_packet and the source that reads on its own account: a buffering adaptor created
+    # around the source (`BufReader::new(&mut self.source)`) fills its buffer past the packet boundary - what it read ahead is
+    # lost with it (or, kept, makes the boundary depend on chunking)
+    ADAPTORS = ("tokio::io::util::buf_reader::BufReader", "tokio::io::util::buf_stream::BufStream", "tokio::io::util::take::",
+                "tokio::io::util::async_read_ext::AsyncReadExt::take", "tokio::io::util::async_read_ext::AsyncReadExt::chain",
+                "std::io::buffered::", "futures_util::io::buf_reader::", "tokio::io::split", "tokio_util::io::")
+    for cname in ("zvt", "zvt_feig_terminal"):
+        c = ctx.crate(cname)
+        for b in c.bodies.values():
+            if "::mock_inner::" in b.id or "::test::" in b.id:
+                continue
+            vx = None
+            for bb, t in b.calls():
+                n = callee(t)
+                if not n.startswith(ADAPTORS) or not t["args"]:
+                    continue
+                vx = vx or VEx(b)
+                if any(mentions_source(vx.operand(a_, bb)) for a_ in t["args"]):
+                    chk.fail(rule + "/only-read-exact", "%s in %s" % (n.split("::<")[0].rsplit("::", 1)[-1], b.raw.get("root", b.id).rsplit("::", 1)[-1]),
+                             "the byte source is wrapped in %s in %s: the adaptor reads from the source on its own account (ahead of "
+                             "the packet boundary), so what read_packet consumes is no longer exactly one APDU" % (n, b.id), t.get("sp"))
     chk.floor("reads of the source", n_reads, 3)
 
 
